@@ -103,6 +103,51 @@ def check_valid_case(case, acc):
             acc.count('unblocked_files_with_0x40_at_1012_1013_either_answer_accepted')
 
 
+def check_probe_case(case, acc):
+    """unblocked writer files whose bytes 1012, 1013 (and 2026, 2027) are individually 0x40 or not"""
+    from cardutil import mciipm
+    enc = case['enc']
+    fill = 'X'
+    at = '@' if enc in ASCII_FAMILY else ' '          # the character that encodes to 0x40
+    # record 1: MTI + bitmap + DE72 (LLLVAR 999): DE72 text starts at file offset 4 + 20 + 3 = 27
+    t1 = [fill] * 999
+    for off, is40 in ((1012, case['b'][0]), (1013, case['b'][1])):
+        t1[off - 27] = at if is40 else fill
+    msgs = [{'MTI': '1240', 'DE72': ''.join(t1)}]
+    if case['size'] == 'exact1014':
+        # total = 4 + 20 + 3 + n + 4 = 1014  ->  n = 983 ; bytes 1012-1013 are then terminator bytes: skip
+        return
+    # record 2 starts at 4 + 1022 = 1026; its DE72 text starts at 1026 + 4 + 20 + 3 = 1053
+    t2 = [fill] * 999
+    for off, is40 in ((2026, case['b'][2]), (2027, case['b'][3])):
+        t2[off - 1053] = at if is40 else fill
+    msgs.append({'MTI': '1240', 'DE72': ''.join(t2)})
+    msgs.append({'MTI': '1240', 'DE72': 'tail'})
+    f = io.BytesIO()
+    w = mciipm.IpmWriter(f, encoding=enc, blocked=False)
+    for m in msgs:
+        w.write(m)
+    w.close()
+    data = f.getvalue()
+    want = [0x40 if x else None for x in case['b']]
+    got = [data[1012], data[1013], data[2026], data[2027]]
+    for g, wv in zip(got, want):
+        if (g == 0x40) != (wv == 0x40):
+            raise core.Broken('probe file layout is not what the generator intended: %r' % got)
+    acc.case(('probe', enc, tuple(case['b'])), nontrivial=True, outcome='probe')
+    try:
+        info = mciipm.ipm_info(io.BytesIO(data))
+    except Exception as ex:
+        acc.viol('c17.exception', case, repr(ex), 'info dict')
+        return
+    if info.get('isValidIPM') is not True:
+        acc.viol('c17.valid.reported_invalid', case, repr(info), 'isValidIPM True')
+        return
+    if not (case['b'][0] and case['b'][1]) and info.get('isBlocked') is not False:
+        acc.viol('c17.unblocked.reported_blocked', case, repr(info.get('isBlocked')), 'isBlocked False',
+                 'unblocked file with bytes 1012-1013 = %02x %02x, 2026-2027 = %02x %02x' % tuple(got))
+
+
 def check_invalid_case(case, acc):
     from cardutil import mciipm, config
     kind = case['kind']
@@ -147,7 +192,9 @@ def check_invalid_case(case, acc):
 
 
 def replay_into(case, acc):
-    if case.get('kind'):
+    if case.get('kind') == 'probe':
+        check_probe_case(case, acc)
+    elif case.get('kind'):
         check_invalid_case(case, acc)
     else:
         check_valid_case(case, acc)
@@ -162,6 +209,10 @@ def enumerate_cases(tier, seed):
             for blocked in (True, False):
                 for blocks in range(1, maxblocks + 1):
                     cases.append({'shape': shape, 'enc': enc, 'blocked': blocked, 'blocks': blocks})
+    import itertools
+    for enc in ASCII_FAMILY + EBCDIC_FAMILY:
+        for b in itertools.product((False, True), repeat=4):
+            cases.append({'kind': 'probe', 'enc': enc, 'b': list(b), 'size': 'long'})
     for n in range(0, 40):
         cases.append({'kind': 'short', 'n': n})
     for mx in (None, 100, 1012):
@@ -193,7 +244,9 @@ def describe(tier, seed):
                 'elements, MTI only; codecs %s | %s; VBS and 1014; EVERY block count 1..%d (filler records are added '
                 'until the blocked form has exactly that many blocks). Oracle: isValidIPM true; reported encoding '
                 'decodes the MTI and belongs to the right family; blocked files isBlocked true; unblocked files '
-                'isBlocked false unless bytes 1012-1013 are both 0x40. Invalid classes: lengths 0..39 (valid from 24), '
+                'isBlocked false unless bytes 1012-1013 are both 0x40; plus unblocked files whose bytes 1012, 1013, 2026, '
+                '2027 are each 0x40 or not (all 16 combinations x 6 codecs: 0x40 is @ in ASCII and space in EBCDIC). '
+                'Invalid classes: lengths 0..39 (valid from 24), '
                 'first length max-1/max/max+1/+2/+1000 under MAX_VBS_RECORD_LENGTH default/100/1012, each of the %d '
                 'unconfigured bits of 2..128 alone in the first bitmap: isValidIPM false with a non-empty reason.'
                 % (ASCII_FAMILY, EBCDIC_FAMILY, 10 if tier == 'quick' else 14, 127 - len(isogen.bits_of('PKG'))),
